@@ -55,6 +55,17 @@ theorem rawdata_dec : Gen.rawdata.dec = decRaw := by
   funext data
   simp only [Gen.rawdata.dec, decRaw, Gen.rawdata.width, copy_fresh data data.length rfl]
 
+/-- **`UserProperties.properties`** (the user properties of every packet type): every pair in order through
+`UserProp.fillProp` — nothing for an empty key, else the identifier `UserProperty` and the pair -/
+theorem userProps_fill (ups : UserProps) : Gen.UserProperties.properties ups = fillUserProps ups := by
+  unfold Gen.UserProperties.properties fillUserProps
+  have : ∀ kv : Bytes × Bytes, Gen.UserProp.fillProp 38 kv = fillProp 0x26 (.pair kv.1 kv.2) := by
+    intro kv
+    funext b i
+    simp only [Gen.UserProp.fillProp, fillProp, WVal.isZero, fillV, ident_fill, userProp_fill]
+    by_cases h : kv.1.isEmpty = true <;> simp [h]
+  simp only [this]
+
 theorem complete : Gen.untranslatedWireVar = [] := by decide
 
 end Mq.Tie.WireVar
